@@ -680,7 +680,7 @@ func callsIn(fn *ssa.Function, names ...string) []ssa.CallInstruction {
 func retOperand(r *ssa.Return, i int) ssa.Value {
 	v := r.Results[i]
 	if u, ok := v.(*ssa.UnOp); ok && u.Op == token.MUL {
-		if a, ok := u.X.(*ssa.Alloc); ok {
+		if a, ok := u.X.(*ssa.Alloc); ok && isPlainCell(a) {
 			// last store to a in this block before the return
 			b := r.Block()
 			var last ssa.Value
@@ -699,4 +699,24 @@ func retOperand(r *ssa.Return, i int) ssa.Value {
 		}
 	}
 	return v
+}
+
+// isPlainCell: the alloc is only ever stored to and loaded from as a whole (a spilled result or a
+// simple local), never addressed by field/element or captured.
+func isPlainCell(a *ssa.Alloc) bool {
+	if a.Referrers() == nil {
+		return false
+	}
+	for _, r := range *a.Referrers() {
+		switch x := r.(type) {
+		case *ssa.Store:
+			if x.Addr != ssa.Value(a) {
+				return false
+			}
+		case *ssa.UnOp, *ssa.DebugRef:
+		default:
+			return false
+		}
+	}
+	return true
 }
